@@ -43,7 +43,13 @@ Section WithH.
   Proof.
     intros until st'. intros E. unfold get_rr in E.
     dbind E as np Qn. dbind E as tp Qt. dbind E as cp Qc. dbind E as lp Ql. dbind E as dp Qd.
-    destruct (fst tp =? OPT) eqn:EO; [discriminate|].
+    destruct (fst tp =? OPT) eqn:EO.
+    { left. apply Z.eqb_eq in EO.
+      destruct (negb (section =? 3) || r_opt st || negb (NameM.name_eqb (fst np) NameM.root)); [discriminate|].
+      destruct (Nat.ltb _ _); [discriminate|].
+      dbind E as u Qo.
+      inversion E; subst st'; clear E. cbn [r_recs r_tsig r_ctx].
+      exists (fst tp), (fst cp). rewrite EO. split; [unfold OPT, TSIG; lia|]. auto. }
     destruct (fst tp =? TSIG) eqn:ET.
     - right.
       destruct (section =? 3) eqn:S3; cbn [negb orb] in E; [|discriminate].
